@@ -153,6 +153,22 @@ func runC17(r *Run) {
 				v = args[0]
 			}
 		})
+		// every block stores a fresh figure: no return without SetBlockGasWanted except the tabled bail-outs
+		nilMeter, _ := guardPassEdges(eb, func(cond ssa.Value) (bool, bool) {
+			b, ok := cond.(*ssa.BinOp)
+			if !ok || (b.Op != token.EQL && b.Op != token.NEQ) || !isNilConst(b.Y) {
+				return false, false
+			}
+			_, okc := callNamed(b.X, "BlockGasMeter")
+			return b.Op == token.EQL, okc
+		})
+		_, overflow := guardPassEdges(eb, func(cond ssa.Value) (bool, bool) {
+			_, ok := callNamed(cond, "IsInt64")
+			return true, ok
+		})
+		isSetBG := isCallMatching(func(ci CallInfo) bool { return ci.Name == "SetBlockGasWanted" })
+		wAll := PathQuery{Fn: eb, Block: isSetBG, Target: func(in ssa.Instruction) bool { _, ok := in.(*ssa.Return); return ok && in.Block() != eb.Recover }, DelEdge: edgeSet(append(nilMeter, overflow...))}.Search()
+		r.Check(wAll == nil, "R2", fnID(eb)+"#always-stores", P.Pos(fnPos(eb)), "every block stores its gas figure (bail-outs: nil gas meter, int64 overflow)", "EndBlock can return without storing this block's gas figure: the next base fee would be computed from an older block's figure (e.g. the last non-empty block)", P.witness(wAll)...)
 		r.Check(okChain && n == 1, "R2", fnID(eb)+"#gas-figure", P.Pos(fnPos(eb)), "stored figure = max(gasWanted × minGasMultiplier, gasUsed), nothing applied after the max", "the block gas figure is not directly max(transient gas wanted × MinGasMultiplier, block gas consumed): declared-but-unpaid gas could push the base fee, or used gas could be ignored")
 	} else {
 		r.Bad("R2", "anchor/EndBlock", "", "feemarket EndBlock not found")
